@@ -16,6 +16,8 @@ use std::sync::{Arc, Condvar, Mutex};
 pub const SHADER_A: &str = "struct Data { a: vec4<f32>, b: f32 };\nstruct Extra { m: mat4x4<f32> };\nstruct VIn { @location(0) p: vec3<f32> };\n@group(0) @binding(0) var<uniform> data: Data;\n@group(0) @binding(1) var<storage, read> extra: Extra;\n@group(1) @binding(0) var tex: texture_2d<f32>;\nconst K: f32 = 1.0;\noverride ov: f32 = 2.0;\nfn helper() -> f32 { return data.b; }\n@vertex fn main(v: VIn) -> @builtin(position) vec4<f32> { return vec4<f32>(v.p * helper() * ov, K) + extra.m[0]; }\n@fragment fn shade() -> @location(0) vec4<f32> { return textureLoad(tex, vec2<i32>(0), 0); }\n";
 pub const SHADER_B: &str = "struct Data { a: vec2<u32>, c: array<vec4<f32>, 3> };\nstruct Extra { m: vec3<f32>, k: f32 };\nstruct VIn { @location(3) q: vec2<f32>, @location(1) r: vec4<u32> };\n@group(0) @binding(4) var<storage, read_write> data: Data;\n@group(0) @binding(2) var<uniform> extra: Extra;\n@group(0) @binding(0) var tex: texture_storage_2d<rgba8unorm, write>;\nconst K: u32 = 7u;\noverride ov: bool;\nfn helper() -> u32 { return data.a.x; }\n@compute @workgroup_size(4) fn main() { data.a.y = helper() + K; textureStore(tex, vec2<i32>(0), vec4<f32>(extra.k)); }\n@vertex fn shade(v: VIn) -> @builtin(position) vec4<f32> { if ov { return vec4<f32>(v.q, 0.0, 1.0); } return vec4<f32>(0.0); }\n";
 pub const SHADER_TYPES: &str = "struct T0 { a: f32 };\nstruct T1 { a: vec2<f32> };\nstruct T2 { a: vec4<f32> };\nstruct T3 { a: mat2x2<f32> };\nstruct T4 { a: T0, b: T1 };\n@group(0) @binding(0) var<uniform> v0: T0;\n@group(0) @binding(1) var<uniform> v1: T1;\n@group(0) @binding(2) var<uniform> v2: T2;\n@group(0) @binding(3) var<uniform> v3: T3;\n@group(0) @binding(4) var<uniform> v4: T4;\n@compute @workgroup_size(1) fn main() { let x = v0.a + v1.a.x + v2.a.x + v3.a[0].x + v4.a.a; }\n";
+/// Several of everything, with ties on every plausible sort key (same first @location, same sizes, same prefixes).
+pub const SHADER_MULTI: &str = "struct VA { @location(0) p: vec4<f32>, @location(1) q: vec2<f32> };\nstruct VB { @location(0) p: vec4<f32> };\nstruct VC { @location(0) r: vec3<f32>, @location(2) s: f32 };\nstruct VD { @location(0) t: vec2<u32> };\nstruct HA { a: vec4<f32> };\nstruct HB { a: vec4<f32> };\nstruct HC { a: vec4<f32>, b: vec4<f32> };\nstruct HD { x: HA, y: HB };\nstruct FO { @location(0) c0: vec4<f32>, @location(1) c1: vec4<f32> };\n@group(0) @binding(0) var<uniform> ha: HA;\n@group(0) @binding(1) var<uniform> hb: HB;\n@group(1) @binding(0) var<storage, read> hc: HC;\n@group(1) @binding(1) var<storage, read_write> hd: HD;\n@group(2) @binding(0) var ta: texture_2d<f32>;\n@group(2) @binding(1) var tb: texture_2d<f32>;\n@group(2) @binding(2) var sa: sampler;\n@group(2) @binding(3) var sb: sampler;\nvar<push_constant> pc: HA;\nconst CA: f32 = 1.0;\nconst CB: f32 = 1.0;\nconst CC: u32 = 1u;\noverride oa: f32 = 1.0;\noverride ob: f32 = 1.0;\n@id(3) override oc: bool = true;\nfn fa() -> f32 { return ha.a.x; }\nfn fb() -> f32 { return hb.a.x + fa(); }\n@vertex fn vs_a(i: VA) -> @builtin(position) vec4<f32> { return i.p * fa() * oa; }\n@vertex fn vs_b(i: VB) -> @builtin(position) vec4<f32> { return i.p * fb() * ob; }\n@vertex fn vs_c(i: VC, j: VD) -> @builtin(position) vec4<f32> { return vec4<f32>(i.r, i.s) + pc.a; }\n@vertex fn vs_d(j: VD, i: VA) -> @builtin(position) vec4<f32> { return i.p; }\n@fragment fn fs_a() -> FO { var o: FO; o.c0 = textureSample(ta, sa, vec2<f32>(0.5)); return o; }\n@fragment fn fs_b() -> @location(0) vec4<f32> { if oc { return textureSample(tb, sb, vec2<f32>(0.5)) * hc.a; } return hc.b; }\n@compute @workgroup_size(1) fn cs_a() { hd.x.a = hc.a * CA; }\n@compute @workgroup_size(2) fn cs_b() { hd.y.a = hc.b * CB * f32(CC); }\n";
 const SHADER_PARSE_ERROR: &str = "struct Data { a: vec4<f32> \n@compute fn main( {}\n";
 const SHADER_NONCONSECUTIVE: &str = "@group(0) @binding(0) var<uniform> data: vec4<f32>;\n@group(2) @binding(0) var<uniform> extra: vec4<f32>;\n@compute @workgroup_size(1) fn main() { let x = data.x + extra.x; }\n";
 const SHADER_PANICS: &str = "struct Data { n: u32, items: array<f32> };\n@group(0) @binding(0) var<storage, read> data: Data;\n@compute @workgroup_size(1) fn main() { let x = data.n; }\n";
@@ -37,6 +39,7 @@ pub fn alphabet() -> Vec<Call> {
         Call { name: "panics", src: SHADER_PANICS, cfg: Config::default() },
         Call { name: "A-rustfmt", src: SHADER_A, cfg: Config { rustfmt: true, ..full } },
         Call { name: "types", src: SHADER_TYPES, cfg: Config { bytemuck_host: true, encase: true, repr: Repr::Nalgebra, ..Config::default() } },
+        Call { name: "multi", src: SHADER_MULTI, cfg: full },
     ]
 }
 
@@ -363,7 +366,7 @@ pub fn run(tier: &str) -> i32 {
             Err(e) => machinery(&format!("C18 reference run failed: {e}")),
         }
     }
-    for (i, want) in [(0usize, "ok:"), (1, "ok:"), (2, "err:ParseError"), (3, "err:NonConsecutiveBindGroups"), (4, "panic:"), (5, "ok:"), (6, "ok:")] {
+    for (i, want) in [(0usize, "ok:"), (1, "ok:"), (2, "err:ParseError"), (3, "err:NonConsecutiveBindGroups"), (4, "panic:"), (5, "ok:"), (6, "ok:"), (7, "ok:")] {
         if !reference[&i].starts_with(want) {
             machinery(&format!("C18 alphabet input {} does not behave as designed: {}", alpha[i].name, reference[&i]));
         }
@@ -444,8 +447,12 @@ pub fn run(tier: &str) -> i32 {
         wgsl_to_wgpu::verif::set_hook(None);
         let la: Vec<(usize, String)> = a.0.iter().map(|d| (d.chosen, d.label.clone())).collect();
         let lb: Vec<(usize, String)> = b.0.iter().map(|d| (d.chosen, d.label.clone())).collect();
-        if la != lb || a.1 != b.1 {
-            machinery("C18 scheduler: the same schedule prefix replayed twice gave different observations");
+        if la != lb {
+            machinery("C18 scheduler: the same schedule prefix replayed twice took different decisions (uncontrolled nondeterminism in the harness)");
+        }
+        if a.1 != b.1 {
+            // identical schedule, identical inputs, different outputs: that is the property failing, not the scheduler
+            rep.violation("schedule|replay|threads=[[A],[B]]".to_string(), format!("the same schedule run twice returned different text: {:?} vs {:?}", a.1, b.1), json!({"schedule": [1, 0, 1], "observed": format!("{:?} vs {:?}", a.1, b.1)}));
         }
         rep.set("replay_check", json!({"prefix": [1, 0, 1], "decisions": la.len(), "identical": true}));
         if la.len() < 8 {
@@ -463,7 +470,7 @@ pub fn run(tier: &str) -> i32 {
             let empty_dir = root().join("target").join("c18-empty-cwd");
             let _ = std::fs::create_dir_all(&empty_dir);
             let seed_list: Vec<u64> = (0..seeds).collect();
-            let seq = "0,1,6,5";
+            let seq = "0,1,6,5,7,7,7";
             let res = par_map(&seed_list, |s| {
                 let seed = base + s;
                 let clear = s % 2 == 1;
@@ -479,13 +486,13 @@ pub fn run(tier: &str) -> i32 {
             });
             for (s, r) in seed_list.iter().zip(res.iter()) {
                 rep.states += 1;
-                rep.evaluations += 4;
+                rep.evaluations += 7;
                 let v = match r {
                     Ok(v) => v,
                     Err(e) => machinery(&format!("C18 seed child failed: {e}")),
                 };
                 orders.insert(v["set_order"].to_string());
-                for (j, i) in [0usize, 1, 6, 5].iter().enumerate() {
+                for (j, i) in [0usize, 1, 6, 5, 7, 7, 7].iter().enumerate() {
                     let got = v["digests"][j].as_str().unwrap_or("");
                     if got != reference[i] {
                         rep.violation(format!("process|seed={}|cwd={}|env={}|input={}", base + s, s % 3, if s % 2 == 1 { "cleared" } else if s % 4 == 2 { "noisy" } else { "inherited" }, alpha[*i].name), format!("{} returned {got} in a process with hash seed {}; reference {}", alpha[*i].name, base + s, reference[i]), json!({"wgsl": alpha[*i].src, "config": alpha[*i].cfg.key(), "hash_seed": base + s, "expected": reference[i], "observed": got}));
@@ -498,6 +505,39 @@ pub fn run(tier: &str) -> i32 {
             }
         }
         None => machinery("C18: getrandom interposer not built"),
+    }
+
+    // ---- (3b) repetition sweep over a program corpus, in child processes with enumerated hash seeds
+    if let Some(lib) = &lib {
+        let shards = 16usize;
+        let sweep_seeds: Vec<u64> = if thorough { (0..8).collect() } else { (0..2).collect() };
+        let jobs: Vec<(usize, u64)> = (0..shards).flat_map(|s| sweep_seeds.iter().map(move |x| (s, *x))).collect();
+        let res = par_map(&jobs, |(sh, seed)| {
+            run_child(&["c18-corpus", &format!("{sh}/{shards}")], &[("LD_PRELOAD", lib.display().to_string()), ("VERIF_HASH_SEED", (base + 5000 + seed).to_string()), ("VERIF_C18_REPS", if thorough { "8".to_string() } else { "4".to_string() })], false, None)
+        });
+        let mut across: BTreeMap<String, BTreeSet<String>> = BTreeMap::new();
+        let mut programs = 0u64;
+        for ((sh, seed), r) in jobs.iter().zip(res.iter()) {
+            let v = match r {
+                Ok(v) => v,
+                Err(e) => machinery(&format!("C18 corpus child failed: {e}")),
+            };
+            for u in v["unstable"].as_array().unwrap() {
+                rep.violation(format!("repeat|{}|seed={}", u["key"].as_str().unwrap(), base + 5000 + seed), format!("the same call repeated in one process returned different text (repetition {})", u["repetition"]), json!({"corpus_key": u["key"], "hash_seed": base + 5000 + seed, "shard": sh, "expected": u["first"], "observed": u["again"]}));
+            }
+            for (k, d) in v["digests"].as_object().unwrap() {
+                across.entry(k.clone()).or_default().insert(d.as_str().unwrap().to_string());
+                programs += 1;
+            }
+        }
+        for (k, set) in &across {
+            if set.len() > 1 {
+                rep.violation(format!("repeat-across-processes|{k}"), format!("{} different outputs across processes with different hash seeds", set.len()), json!({"corpus_key": k, "observed": set}));
+            }
+        }
+        rep.states += across.len() as u64;
+        rep.evaluations += programs * if thorough { 8 } else { 4 };
+        rep.set("corpus_repetition", json!({"programs": across.len(), "processes": jobs.len(), "repetitions_per_process": if thorough { 8 } else { 4 }}));
     }
 
     // ---- (4) syscall monitor
@@ -520,6 +560,51 @@ pub fn run(tier: &str) -> i32 {
     rep.sample(json!({"schedule_threads": [["A"], ["B"]], "yield_points": ["gen:parsed", "gen:validated", "gen:groups", "gen:stages", "gen:structs", "gen:consts", "gen:bindgroups", "gen:vertex", "gen:compute", "gen:entries", "gen:overrides", "gen:assembled"]}));
     rep.rule = format!("(1) all call sequences of length <= {depth} over a 6-input alphabet built to collide (shaders A and B declare the same struct / variable / entry names with different types, stages and groups; a parse error; non-consecutive groups; an input that panics inside generation; A with rustfmt) in one fresh process each, every result compared with the same input alone in a fresh process; (2) real threads running real calls under a controlled scheduler (12 section yield points per call), all schedules within the stated preemption bound per thread program; (3) {seeds} enumerated hash seeds (getrandom interposer) x working directory {{/, empty dir, inherited}} x environment {{inherited, cleared, noisy}}; (4) strace monitor and source audit. Oracle: byte-identical text / same error variant as the isolated reference.");
     rep.finish()
+}
+
+/// The program corpus for the repetition sweep: many shapes, several of each kind of item.
+fn corpus() -> Vec<(String, String, Config)> {
+    let full = Config { bytemuck_vertex: true, encase: true, serde: true, repr: Repr::Glam, ..Config::default() };
+    let mut v: Vec<(String, String, Config)> = vec![];
+    for a in crate::c01::atoms(false) {
+        if a.id.starts_with("name|") {
+            continue;
+        }
+        v.push((a.id.clone(), a.src.clone(), if a.structs { full } else { Config::default() }));
+    }
+    for p in crate::c08::space(false).into_iter().step_by(40) {
+        v.push((format!("roles|{}", p.key), p.src, Config { encase: true, ..Config::default() }));
+    }
+    v.push(("multi".into(), SHADER_MULTI.into(), full));
+    // keys must be unique: the parent compares digests per key across processes
+    let mut seen = BTreeSet::new();
+    v.retain(|(k, _, _)| seen.insert(k.clone()));
+    v
+}
+
+/// Child: every corpus program of the shard is generated R times in this process; prints the keys whose
+/// outputs differ between repetitions and a digest per key (compared across processes by the parent).
+pub fn corpus_child(spec: &str) -> i32 {
+    let (shard, n) = spec.split_once('/').map(|(a, b)| (a.parse::<usize>().unwrap(), b.parse::<usize>().unwrap())).unwrap();
+    let reps = std::env::var("VERIF_C18_REPS").ok().and_then(|s| s.parse().ok()).unwrap_or(4usize);
+    let mut digests = serde_json::Map::new();
+    let mut unstable = vec![];
+    for (i, (key, src, cfg)) in corpus().into_iter().enumerate() {
+        if i % n != shard {
+            continue;
+        }
+        let first = outcome_digest(&generate(&src, &cfg));
+        for r in 1..reps {
+            let again = outcome_digest(&generate(&src, &cfg));
+            if again != first {
+                unstable.push(json!({"key": key, "repetition": r, "first": first, "again": again}));
+                break;
+            }
+        }
+        digests.insert(key, json!(first));
+    }
+    println!("{}", json!({"digests": digests, "unstable": unstable}));
+    0
 }
 
 /// Child for the syscall monitor: marker, calls with rustfmt off, marker.
